@@ -1,2 +1,3 @@
+@classmethod
 def spec(cls, support, rate):
     return torch.exp(Poisson.logpmf(support, rate))
